@@ -64,7 +64,8 @@ def correspondence(ctx, model_ok, tmp):
         reg.insertDimensionData("day_obs", {"instrument": "I", "id": day})
     for g in ("g1", "g2"):
         reg.insertDimensionData("group", {"instrument": "I", "name": g})
-    EXP = {10: ("f1", 20240101, "g1"), 11: ("f2", 20240102, "g2"), 12: ("f1", 20240102, "g1")}
+    # exposure 13 has the filter and day of visit 1 but is not one of its exposures: only the visit_definition rows tell
+    EXP = {10: ("f1", 20240101, "g1"), 11: ("f2", 20240102, "g2"), 12: ("f1", 20240102, "g1"), 13: ("f1", 20240101, "g1")}
     for e, (f, day, g) in EXP.items():
         reg.insertDimensionData("exposure", {"instrument": "I", "id": e, "obs_id": f"o{e}", "physical_filter": f, "day_obs": day, "group": g})
     VIS = {1: ("f1", 20240101), 2: ("f2", 20240102)}
@@ -120,7 +121,7 @@ def correspondence(ctx, model_ok, tmp):
 
     POOL = {
         "instrument": ["I", "I", "I", "J"], "detector": [1, 2, 3], "physical_filter": ["f1", "f2", "f9"], "band": ["r", "g", "i"],
-        "day_obs": [20240101, 20240102], "group": ["g1", "g2"], "exposure": [10, 11, 12, 99], "visit": [1, 2, 7],
+        "day_obs": [20240101, 20240102], "group": ["g1", "g2"], "exposure": [10, 11, 12, 13, 13, 99], "visit": [1, 2, 7],
     }
     dims_pool = list(POOL)
 
@@ -141,7 +142,7 @@ def correspondence(ctx, model_ok, tmp):
         # a consistent underlying truth to draw from, then perturb
         truth = {"instrument": "I", "detector": rng.choice([1, 2])}
         v = rng.choice([1, 2])
-        e = rng.choice([x for vv, x in VDEF if vv == v]) if rng.random() < 0.7 else rng.choice([10, 11, 12])
+        e = rng.choice([x for vv, x in VDEF if vv == v]) if rng.random() < 0.7 else rng.choice([10, 11, 12, 13, 13])
         truth.update(visit=v, exposure=e)
         src = rng.choice(["visit", "exposure"]) if {"visit", "exposure"} <= set(G.names) else ("visit" if "visit" in G.names else "exposure")
         f, day = VIS[v] if src == "visit" else EXP[e][:2]
@@ -339,6 +340,33 @@ def correspondence(ctx, model_ok, tmp):
                 elif want is not None and all(k in full_in for k in G.required):
                     viol(f"expandDataId({full_in}, dimensions={list(names)}) refused ({eout}) a consistent data ID", f"expand-refuses:{sorted(names)}:{sorted(map(str, full_in.items()))}",
                          {"kind": "expand", "input": str(full_in), "dims": list(names)})
+            # ---- expanding an already expanded data ID again with a keyword that overrides one of its values: either a documented
+            # refusal, or values and records of the *new* data ID as the stored records have them
+            if ex is not None and rng.random() < 0.5:
+                over = [(k, v_) for k in G.required for v_ in sorted(set(POOL.get(k, [])), key=str) if v_ != ex[k] and k != "instrument"]
+                if over:
+                    k_o, v_o = rng.choice(over)
+                    ctx.count("re-expand-with-override")
+                    try:
+                        ex2 = reg.expandDataId(ex, **{k_o: v_o})
+                    except (InconsistentDataIdError, DataIdValueError, DimensionNameError):
+                        ex2 = None
+                        ctx.count("re-expand-with-override:refused")
+                    except Exception as exn:
+                        ex2 = None
+                        viol(f"expandDataId(<expanded {dict(ex.mapping)}>, {k_o}={v_o!r}) raised {type(exn).__name__}", f"re-expand-internal:{type(exn).__name__}",
+                             {"kind": "re-expand", "input": str(dict(ex.mapping)), "override": [k_o, str(v_o)]})
+                    if ex2 is not None:
+                        req2 = {k: ex2[k] for k in ex2.dimensions.required}
+                        want2 = consistent({k: (int(v_) if isinstance(v_, numpy.integer) else v_) for k, v_ in req2.items()})
+                        got2 = {k: ex2[k] for k in ex2.dimensions.names}
+                        stale = [el for el, r_ in ex2.records.items() if r_ is not None and
+                                 any(ex2.get(k) != v_ for k, v_ in r_.dataId.required.items())]
+                        if want2 is None or any(got2[k] != want2[k] for k in got2 if k in want2) or stale:
+                            viol(f"expandDataId(<expanded {dict(ex.mapping)}>, {k_o}={v_o!r}) = {got2}"
+                                 + (f" with the records of another data ID attached for {stale}" if stale else "")
+                                 + f"; the stored records say {want2}", "re-expand-keeps-records-of-overridden-values" if stale else f"re-expand-values:{k_o}",
+                                 {"kind": "re-expand", "input": str(dict(ex.mapping)), "override": [k_o, str(v_o)]})
     ctx.count("cases", n_cases)
 
     # ---- unions of data IDs (plain and expanded operands) commute with the key/value sets and never claim records they lack
